@@ -28,10 +28,13 @@ META = {
     "category": "proof",
     "text": "Every template that the legacy and Venom code generators emit for checked arithmetic (+ - * / // % ** unary "
             "minus; operands in variables or literal on either side, incl. the literal-dependent special cases), for "
-            "convert() between all word-sized types (8618 allowed pairs), for the range clamps of all word types and for "
-            "the unchecked operations (unsafe_*, pow_mod256, shifts, bit ops) is proved in Coq, for all operand values, "
-            "to return the exact mathematical result when representable and to revert otherwise (unchecked ops: to wrap "
-            "exactly modulo 2**bits). The templates are re-exported from /repo on every run by calling the real "
+            "convert() between all word-sized types (8618 allowed pairs; flags with every member count 1..256), for "
+            "convert() from Bytes[N]/String[N] (N = 1..32, every length and every content of the padding), for the range "
+            "clamps of all word types, for the unchecked operations (unsafe_*, pow_mod256, shifts, bit ops) and for the "
+            "builtins shift(), abs(), ~, uint256_addmod/mulmod (variable and literal operands) is proved in Coq, for all "
+            "operand values, to return the exact mathematical result when representable and to revert otherwise "
+            "(unchecked ops: to wrap exactly modulo 2**bits). convert() of literal sources is tied to the same "
+            "specification on a boundary family of literals typed by the real front end. The templates are re-exported from /repo on every run by calling the real "
             "generators, and tied to the proved parametric models by kernel-checked syntactic equality over the complete "
             "finite families. The rest of the pipeline (ABI decode, optimiser passes, back ends) is covered by "
             "differentials of probe contracts against the Coq spec under several configurations.",
@@ -40,8 +43,9 @@ META = {
                   "against the Coq evaluators); Word256.v (EVM word semantics, tied to pyrevm by vlib.wordtie). "
                   "Literal-operand templates are tied for a finite literal set covering every literal-dependent branch "
                   "(theorems parametric in the literal); pow bounds are re-checked by the kernel for the exported literals "
-                  "and rely on C20's largest_power/base theorems otherwise. Conversions from Bytes/String and the "
-                  "optimiser passes that rewrite/delete checks are covered by the glue differential only.",
+                  "and rely on C20's largest_power/base theorems otherwise. Bytestring sources are modelled as a pointer "
+                  "into an abstract read-only memory (mload); literal-source conversions are a finite family (quick: a "
+                  "seeded sample). The optimiser passes that rewrite/delete checks are covered by the glue differential only.",
     "technique": "Coq proof over exported code-generator templates (O-tie) + differential correspondence",
 }
 
@@ -1260,8 +1264,8 @@ def shift_glue(ctx, cfgs):
 
 def literal_convert_glue(ctx, litfam, tie_ok, cfgs):
     """convert(<literal>, T) through the full compiler under both pipelines vs conv_spec (evaluated by Coq): cases the
-    generators accept must return exactly the value (or revert / be rejected statically when conv_spec is Revert); cases
-    rejected by a generator must not have a value.  If the Coq tie is broken, the mismatching cases are searched first."""
+    generators accept must return exactly the value (or revert / be rejected statically when conv_spec is Revert or the pair
+    is not allowed); cases rejected by a generator must not have a value.  If the Coq tie is broken, the mismatching cases are searched first."""
     rnd = ctx.rng("litglue")
     picks = []
     if not tie_ok:
@@ -1284,7 +1288,7 @@ def literal_convert_glue(ctx, litfam, tie_ok, cfgs):
             cases.append(a)
     if not cases:
         return 0, []
-    spec = coqrun.eval_zlists(CONV_PRELUDE, ["[" + "; ".join(f"oc (c_enc_out {a[2]} (conv_spec {a[1]} {a[2]} {X.zl(a[5])}))" for a in cases) + "]"],
+    spec = coqrun.eval_zlists(CONV_PRELUDE, ["[" + "; ".join(f"(if conv_allowed {a[1]} {a[2]} then oc (c_enc_out {a[2]} (conv_spec {a[1]} {a[2]} {X.zl(a[5])})) else -1)" for a in cases) + "]"],
                               "c03litglue", timeout=300)[0]
     failing, n_eval = [], 0
     for a, e in zip(cases, spec):
